@@ -120,13 +120,25 @@ class Model():
         if build_code:
             self.build_code()
 
+    @staticmethod
+    def _defined_name_address(defn):
+        """The address text a defined name stands for in a formula."""
+        if not isinstance(defn, xltypes.XLRange):
+            return defn.address
+        address = getattr(defn, 'address_str', None)
+        if address is None:
+            # Persisted by a version that did not keep the address text.
+            last_cell = defn.cells[-1][-1].split('!')[-1]
+            address = f'{defn.cells[0][0]}:{last_cell}'
+        return address
+
     def build_code(self):
         """Define the Python code for all cells in the dict of cells."""
 
         for cell in self.cells:
             if self.cells[cell].formula is not None:
                 defined_names = {
-                    name: defn.address
+                    name: self._defined_name_address(defn)
                     for name, defn in self.defined_names.items()}
                 self.cells[cell].formula.ast = parser.FormulaParser().parse(
                     self.cells[cell].formula.formula, defined_names)
